@@ -84,6 +84,11 @@ REGEXES = [
     r"(\d+\.\d+\.\d+\.\d+(?:/\d+)?)",
 ]
 DEFAULTS = [None, "", "", "x", "0", "-1", "1.5", "1.1.1.1", "10.0.0.1/8", "None", " 42 ", 0, -1, 7, 4294967295]
+# defaults aimed at the boundary of what int() / float() accept (typed defaults go through result_type)
+INT_DEFAULTS = ["+5", "-0", " 12", "12 ", "1 2", "0x1f", "1.0", "--1", "+-1", "+", "-", "007", "\t-7\n", "1e3", 10 ** 9]
+FLOAT_DEFAULTS = ["1e5", "1.", ".", "e5", "+.5", "--1", "1_000.5", "1._5", "_1", "1__0", "infinity", "-INF", "+nan", "nani", "1e+", "1e+07",
+                  "1E-3", "0x10", " 1.5 ", "1 .5", "1.5.", ".5e1", "5e", "-", "+", "1e5.0", "in", "Infinity", "1_0", "1_", "1e1_0", "1e_1"]
+IP_DEFAULTS = ["1.1.1.1/24", "10.0.0.1 255.255.255.0", "dhcp", "1.1.1", "1.1.1.1/33", "256.1.1.1", " 1.2.3.4 ", 16909060]
 TYPES = ["str", "int", "float", "ip"]
 OPS = ["iter", "iter", "iter", "iter", "list", "list", "typed", "typed", "match", "root", "root"]
 
@@ -203,9 +208,13 @@ def rand_queries(rng, lines, k):
             idx = rng.choice(parents)
         else:
             idx = rng.randrange(n + 1) if rng.random() < 0.05 else rng.randrange(n)
+        ty = rng.choice(["str", "str", "int", "int", "float", "ip"])
+        pool = DEFAULTS
+        if rng.random() < 0.4:
+            pool = {"str": DEFAULTS, "int": INT_DEFAULTS, "float": FLOAT_DEFAULTS, "ip": IP_DEFAULTS}[ty]
         qs.append({
-            "idx": idx, "op": rng.choice(OPS), "ty": rng.choice(["str", "str", "int", "int", "float", "ip"]),
-            "recurse": int(rng.random() < 0.5), "untyped": int(rng.random() < 0.3), "default": rng.choice(DEFAULTS),
+            "idx": idx, "op": rng.choice(OPS), "ty": ty,
+            "recurse": int(rng.random() < 0.5), "untyped": int(rng.random() < 0.3), "default": rng.choice(pool),
         })
     return qs
 
@@ -306,8 +315,23 @@ FIXTURE_RX = [r"ip address (\S+) (\S+)", r"^interface (\S+?)(\d\S*)?$", r"descri
               r"(\d+\.\d+\.\d+\.\d+(?:/\d+)?)", r"^hostname (\S+)", r"vlan (\d+)(,\d+)?"]
 
 
+def literal_stream(maxlen):
+    """every text up to `maxlen` over a small alphabet as a typed default of a query on a line that does not match:
+    exhaustive differential test of the model's int()/float() acceptance (no '_' for int: the model's int() has none)"""
+    import itertools
+    for ty, alphabet in (("float", "1_.e+- n"), ("int", "10+-. a")):
+        texts = [""]
+        for n in range(1, maxlen + 1):
+            texts += ["".join(t) for t in itertools.product(alphabet, repeat=n)]
+        for k in range(0, len(texts), 60):
+            qs = [{"idx": 0, "op": "typed", "ty": ty, "recurse": 0, "untyped": 0, "default": d} for d in texts[k:k + 60]]
+            yield mk("ios", False, None, ["x"], r"nomatchatall(\d)", False, 1, qs, "literals")
+
+
 def cases(rng, tier):
     T.selfcheck()
+    if tier != "search":
+        yield from literal_stream(4 if tier == "quick" else 5)
     n = {"quick": 2600, "thorough": 60000, "search": 3000}[tier]
     if tier == "thorough":
         for name, lines in T.fixture_configs():
